@@ -71,10 +71,10 @@ pub const PROPS: &[Prop] = &[
         id: "C14",
         engine: Engine::Hist,
         level: "fault_enumeration",
-        sweep_runs: 7695,
-        quick_runs: 7_695 + 40_000,
-        thorough_runs: 7_695 + 1_500_000,
-        rule: "grid: 19 entry points (registry register/register_sigaction/2 unchecked, flag x4, pipe x2, iterator new/add_signal x 3 exfiltrators, iterator new with a two-element list [SIGUSR1, n] x 3) x signal in [-2,130] + {i32::MIN, i32::MAX} x {fresh process, after three other signals were registered, after the same number was registered through an unchecked entry point}; each cell in its own forked process under catch_unwind; thorough adds seeded mixes. Oracles: panic vs Err vs Ok as documented, dispositions of all 64 signals bit-identical after a rejection, previously registered actions still run, captured flag/descriptor released, library still usable. Non-trivial: the call was rejected (panic or error). Distinct: by grid cell.",
+        sweep_runs: 10260,
+        quick_runs: 10_260 + 40_000,
+        thorough_runs: 10_260 + 1_500_000,
+        rule: "grid: 19 entry points (registry register/register_sigaction/2 unchecked, flag x4, pipe x2, iterator new/add_signal x 3 exfiltrators, iterator new with a two-element list [SIGUSR1, n] x 3) x signal in [-2,130] + {i32::MIN, i32::MAX} x {fresh process, after three other signals were registered, after the same number was registered through an unchecked entry point, (add_signal) on an instance that already watches the number modulo 128}; each cell in its own forked process under catch_unwind; thorough adds seeded mixes. Oracles: panic vs Err vs Ok as documented, dispositions of all 64 signals bit-identical after a rejection, previously registered actions still run, captured flag/descriptor released, library still usable. Non-trivial: the call was rejected (panic or error). Distinct: by grid cell.",
         probes: &[(E_HIST_REJECTED, "rejected_calls"), (E_HIST_OPS, "calls_made")],
         real: HIST_REAL,
         stub: HIST_STUB,
@@ -427,6 +427,9 @@ struct C12State<E: Exfiltrator> {
     drops_before: usize,
     witness: BTreeMap<i32, Arc<AtomicBool>>,
     ever_watched: BTreeSet<i32>,
+    /// close() was called on the current instance (documented: further signals may or may not
+    /// be returned, but only real ones)
+    closed: bool,
 }
 
 fn witness_for<E: Exfiltrator>(st: &mut C12State<E>, sig: i32) {
@@ -459,7 +462,7 @@ where
     };
     if let Some(g) = got {
         let want: Vec<i32> = if expect_watched { vec![sig] } else { vec![] };
-        if g != want {
+        if g != want && !(st.closed && g.is_empty()) {
             sim::report("C12", "instance-differs-from-model", &format!("op {} ({}): after one delivery of signal {} the instance reported {:?}; the reference model (watched {:?}) says {:?}", k, ctx, sig, g, st.watched, want), true);
         }
     }
@@ -504,7 +507,7 @@ where
     E: Exfiltrator + Default,
     E::Output: OutSig,
 {
-    let mut st: C12State<E> = C12State { inst: None, plain: None, handles: Vec::new(), watched: BTreeSet::new(), probe: -1, wfd: -1, drops_before: 0, witness: BTreeMap::new(), ever_watched: BTreeSet::new() };
+    let mut st: C12State<E> = C12State { inst: None, plain: None, handles: Vec::new(), watched: BTreeSet::new(), probe: -1, wfd: -1, drops_before: 0, witness: BTreeMap::new(), ever_watched: BTreeSet::new(), closed: false };
     let nops = 3 + sim::work(if spec.tier == Tier::Thorough { 40 } else { 22 }) as usize;
     let mut hh = 0u64;
     let mut desc = format!("{} {} ops: ", exname, nops);
@@ -518,6 +521,7 @@ where
         if !alive && st.handles.is_empty() {
             // constructor
             c12_cleanup_check(&mut st, k);
+            st.closed = false;
             let n = sim::work(4) as usize;
             let mut list = Vec::new();
             let mut expect = Expect::Ok;
@@ -671,6 +675,23 @@ where
             if rejected_seen {
                 accepted_after_reject = true;
             }
+        } else if r < 77 && (alive || !st.handles.is_empty()) {
+            // close() through the instance or a handle: registrations stay until the owners go
+            hmix(&mut hh, 304);
+            desc.push_str("close ");
+            let r = catch_unwind(AssertUnwindSafe(|| {
+                if !st.handles.is_empty() {
+                    st.handles[0].close()
+                } else if let Some(i) = st.inst.as_ref() {
+                    i.handle().close()
+                } else {
+                    st.plain.as_ref().unwrap().handle().close()
+                }
+            }));
+            if r.is_err() {
+                sim::report("C12", "close-panicked", &format!("op {}: close() panicked: {} (history: {})", k, panic_msg(), desc), true);
+            }
+            st.closed = true;
         } else if r < 82 && alive {
             hmix(&mut hh, 303);
             desc.push_str("drop_instance ");
@@ -1213,16 +1234,16 @@ fn c14(spec: &RunSpec) -> ! {
     let sweep = spec.run < spec.prop.sweep_runs;
     let (entry, sig, warm_mode) = if sweep {
         let mut r = spec.run;
-        let warm = r % 3;
-        r /= 3;
+        let warm = r % 4;
+        r /= 4;
         let si = r % 135;
         r /= 135;
         (r as usize % 19, c14_signal(si), warm)
     } else {
-        (sim::work(19) as usize, c14_signal(sim::work(135) as u64), sim::work(3) as u64)
+        (sim::work(19) as usize, c14_signal(sim::work(135) as u64), sim::work(4) as u64)
     };
     let warm = warm_mode == 1;
-    sim::note(&format!("{}({}) {}", ENTRY_NAMES[entry], sig, ["in a fresh process", "after three other signals were registered", "after the same number was registered through the unchecked entry point"][warm_mode as usize]));
+    sim::note(&format!("{}({}) {}", ENTRY_NAMES[entry], sig, ["in a fresh process", "after three other signals were registered", "after the same number was registered through the unchecked entry point", "on an instance that already watches the number modulo 128 (where applicable)"][warm_mode as usize]));
     sim::sig_mix(((entry as u64) << 20) ^ ((sig as i64 as u64) << 2) ^ warm_mode);
     sim::count(E_HIST_OPS, 1);
     // warm-up: three other signals with tagged actions
@@ -1266,7 +1287,6 @@ fn c14(spec: &RunSpec) -> ! {
         // make sure SIGUSR1 is taken over already, so that its disposition does not differ after
         unsafe { signal_hook_registry::register(libc::SIGUSR1, || ()).expect("pre-registration of USR1") };
     }
-    let before: Vec<(usize, i32)> = (1..=64).map(get_disposition).collect();
     let flag = Arc::new(AtomicBool::new(false));
     let uflag = Arc::new(AtomicUsize::new(0));
     let (prd, pwr) = make_pair(FdKind::Stream, false);
@@ -1275,15 +1295,20 @@ fn c14(spec: &RunSpec) -> ! {
     let mut keep_a: Option<SignalsInfo<SignalOnly>> = None;
     let mut keep_b: Option<SignalsInfo<WithRawSiginfo>> = None;
     let mut keep_c: Option<SignalsInfo<WithOrigin>> = None;
+    // warm mode 3: the instance already watches the number's residue modulo the table size (a
+    // masked or wrapped index must not turn the refusal into "already registered")
+    let alias = (sig as usize & 127) as i32;
+    let pre: Vec<i32> = if warm_mode == 3 && alias != sig && os_accepts(alias) && !C12_FORBIDDEN.contains(&alias) { vec![alias] } else { Vec::new() };
     if entry == 11 {
-        keep_a = Some(SignalsInfo::<SignalOnly>::new(&[] as &[i32]).expect("empty Signals"));
+        keep_a = Some(SignalsInfo::<SignalOnly>::new(&pre).expect("Signals for add_signal"));
     }
     if entry == 13 {
-        keep_b = Some(SignalsInfo::<WithRawSiginfo>::new(&[] as &[i32]).expect("empty Signals"));
+        keep_b = Some(SignalsInfo::<WithRawSiginfo>::new(&pre).expect("Signals for add_signal"));
     }
     if entry == 15 {
-        keep_c = Some(SignalsInfo::<WithOrigin>::new(&[] as &[i32]).expect("empty Signals"));
+        keep_c = Some(SignalsInfo::<WithOrigin>::new(&pre).expect("Signals for add_signal"));
     }
+    let before: Vec<(usize, i32)> = (1..=64).map(get_disposition).collect();
     shm::get().expect_set = 2;
     shm::put_str(&mut shm::get().msg, &format!("{}({})", ENTRY_NAMES[entry], sig));
     let fds_before = open_fds();
@@ -1420,6 +1445,12 @@ fn c14(spec: &RunSpec) -> ! {
 // ---------------------------------------------------------------------------------------------
 // C15
 
+extern "C" fn quick_exit_marker() {
+    if shm::is_set() {
+        shm::get().atexit_ran = 2;
+    }
+}
+
 extern "C" fn atexit_marker() {
     if shm::is_set() {
         shm::get().atexit_ran = 1;
@@ -1429,6 +1460,11 @@ extern "C" fn atexit_marker() {
 fn c15(spec: &RunSpec) -> ! {
     shm::put_str(&mut shm::get().exit_prop, "C15");
     unsafe { libc::atexit(atexit_marker) };
+    // ... and the other family of exit-time hooks (run by quick_exit, not by _exit)
+    extern "C" {
+        fn at_quick_exit(f: extern "C" fn()) -> libc::c_int;
+    }
+    unsafe { at_quick_exit(quick_exit_marker) };
     start(spec);
     let sigs = [libc::SIGTERM, libc::SIGQUIT, libc::SIGINT, libc::SIGUSR1, libc::SIGHUP];
     let ns = 1 + sim::work(3) as usize;
